@@ -254,6 +254,30 @@ func symStr(hint string) *StrV {
 	return &StrV{Known: false, S: hint, ID: BV(uint64(1)<<62+uint64(symStrCounter), 64)}
 }
 
+// CondV stands for ite(C, A, B) over values of different shapes (only produced when a guarded store
+// overwrites a value of another kind, e.g. an untyped zero cell); consumers resolve it under their guard.
+type CondV struct {
+	C    *Term
+	A, B Value
+}
+
+// resolveCond picks the branch of a CondV that is consistent with guard g (syntactically).
+func resolveCond(v Value, g *Term) Value {
+	for {
+		cv, ok := v.(*CondV)
+		if !ok {
+			return v
+		}
+		if And(g, Not(cv.C)).IsFalse() {
+			v = cv.A
+		} else if And(g, cv.C).IsFalse() {
+			v = cv.B
+		} else {
+			panic(Inconclusive{"value of mixed shape could not be resolved under the path guard: C=" + cv.C.String() + " G=" + g.String() + " A=" + valStr(cv.A) + " B=" + valStr(cv.B)})
+		}
+	}
+}
+
 // ---------------- merge (ite) ----------------
 
 func iteValue(c *Term, a, b Value) Value {
@@ -269,14 +293,16 @@ func iteValue(c *Term, a, b Value) Value {
 	if b == nil {
 		return a
 	}
+	if fmt.Sprintf("%T", a) != fmt.Sprintf("%T", b) {
+		return &CondV{C: c, A: a, B: b}
+	}
 	switch x := a.(type) {
+	case *CondV:
+		return &CondV{C: c, A: a, B: b}
 	case *Term:
-		y, ok := b.(*Term)
-		if !ok {
-			panic(fmt.Sprintf("iteValue: kind mismatch %T %T", a, b))
-		}
+		y := b.(*Term)
 		if x.w != y.w {
-			panic(fmt.Sprintf("iteValue: width mismatch %d %d", x.w, y.w))
+			return &CondV{C: c, A: a, B: b}
 		}
 		return Ite(c, x, y)
 	case *StructV:
@@ -350,6 +376,9 @@ func sameRef(a, b Ref) bool {
 		return ok && x == y
 	case *CtxObj:
 		y, ok := b.(*CtxObj)
+		return ok && x == y
+	case *TypeRef:
+		y, ok := b.(*TypeRef)
 		return ok && x == y
 	case *FuncVal:
 		y, ok := b.(*FuncVal)
@@ -439,9 +468,16 @@ func pruneRef(r *RefV) *RefV {
 func eqValue(a, b Value) *Term {
 	switch x := a.(type) {
 	case *Term:
-		return Eq(x, b.(*Term))
+		y, ok := b.(*Term)
+		if !ok || y.w != x.w {
+			return TS.False
+		}
+		return Eq(x, y)
 	case *StructV:
-		y := b.(*StructV)
+		y, ok := b.(*StructV)
+		if !ok || len(y.F) != len(x.F) {
+			return TS.False
+		}
 		var cs []*Term
 		for i := range x.F {
 			cs = append(cs, eqValue(x.F[i], y.F[i]))
@@ -454,7 +490,10 @@ func eqValue(a, b Value) *Term {
 		}
 		return Eq(x.ID, y.ID)
 	case *RefV:
-		y := b.(*RefV)
+		y, ok := b.(*RefV)
+		if !ok {
+			return TS.False
+		}
 		var cs []*Term
 		for _, p := range x.Alts {
 			for _, q := range y.Alts {
@@ -586,6 +625,8 @@ func refStr(r Ref) string {
 		return "chan:" + x.Obj.Name
 	case *CtxObj:
 		return "ctx:" + x.Name
+	case *TypeRef:
+		return "type:" + x.T.String()
 	case *FuncVal:
 		if x.Fn != nil {
 			return "func:" + x.Fn.String()
